@@ -7,3 +7,7 @@ open GoRedis
 #print axioms C09_listeners_survive
 #print axioms C09_good_client_served_afterwards
 #print axioms C09_credential_table
+#print axioms C09_ca_fixed_by_clients
+#print axioms C09_only_current_ca
+#print axioms C09_rotation_effective
+#print axioms C09_retired_ca_rejected
